@@ -277,17 +277,41 @@ def _value(V, kind, name):
     return V.int(name, -5, 500) if kind == "int" else V.bool(name)
 
 
-@obligation("C19", "parameter-propagation", functions=F, max_paths={"quick": 8000, "thorough": 60000},
-            bounds="every parameter group G of MPDrawParams x parameters {time_begin, time_end, antialiased, zorder, linewidth, show_label, opacity, "
-                   "draw_icon, scale_factor, draw_shape} with a symbolic value, after a symbolic earlier setting of the same parameter on a symbolically "
-                   "chosen group nested in G (possibly to the same value)")
-def propagation(V):
+QUICK_NAMES = ["time_begin", "time_end", "antialiased", "zorder", "show_label", "draw_shape"]
+
+
+def _propagation(tier):
+    names = QUICK_NAMES if tier == "quick" else list(SAMPLE)
+    n_rep = 2 if tier == "quick" else 4
+
+    @obligation("C19", "parameter-propagation" + ("" if tier == "quick" else ".all-sampled-parameters"), tier=tier, functions=F,
+                max_paths={"quick": 8000, "thorough": 60000},
+                bounds=f"every parameter group G of MPDrawParams x parameters {names} with a symbolic value, after a symbolic earlier setting of the same "
+                       f"parameter on a symbolically chosen group nested in G (possibly to the same value), and after one of up to {n_rep} direct sub-groups "
+                       "of G was replaced by a fresh instance")
+    def ob(V):
+        propagation(V, names, n_rep)
+
+    return ob
+
+
+_propagation("quick")
+_propagation("thorough")
+
+
+def propagation(V, names, n_rep):
     params = MPDrawParams()
     gs = groups(params)
     gi = V.choice("group", len(gs))
     path, g = gs[gi]
-    names = list(SAMPLE)
     name = names[V.choice("parameter", len(names))]
+    # a nested group may have been replaced by a fresh one after construction: it is nested all the same
+    children = [(k, v) for k, v in vars(g).items() if isinstance(v, BaseParam)]
+    rep = V.choice("replaced_child", min(len(children), n_rep) + 1)
+    if rep > 0:
+        k, v = children[(rep - 1) * max(1, len(children) // n_rep)]
+        setattr(g, k, type(v)())
+        gs = groups(params)
     nested = groups(g)
     declaring = [(p, n) for p, n in nested if declares(n, name)]
     if not declaring:
